@@ -234,34 +234,68 @@ pub fn eval_raw<S: Num>(d: &Diag) -> Result<RawTensor<S>, EvalError> {
     let open: BTreeSet<usize> = bnds.iter().map(|&b| cls[b]).collect();
     let all_cls: BTreeSet<usize> = cls.iter().copied().collect();
     let mut closed: BTreeSet<usize> = all_cls.difference(&open).copied().collect();
-    // bucket elimination, min-degree
-    while !closed.is_empty() {
-        // degree = number of distinct other vars sharing a factor
-        let mut best = None;
-        for &c in &closed {
-            let mut nb = BTreeSet::new();
-            for f in &factors {
-                if f.vars.contains(&c) {
+    // bucket elimination, min-degree. Incidence index (variable -> factor slots) and a set
+    // ordered by (degree, variable): near-linear on chains and trees of thousands of spiders,
+    // the same elimination rule as the straightforward quadratic scan it replaced (smallest
+    // number of distinct other variables sharing a factor, ties to the smallest class id).
+    let mut slots: Vec<Option<Factor<S>>> = factors.into_iter().map(Some).collect();
+    let mut inc: std::collections::HashMap<usize, Vec<usize>> = std::collections::HashMap::new();
+    for (k, f) in slots.iter().enumerate() {
+        for &v in &f.as_ref().unwrap().vars {
+            inc.entry(v).or_default().push(k);
+        }
+    }
+    let degree = |c: usize, slots: &Vec<Option<Factor<S>>>, inc: &std::collections::HashMap<usize, Vec<usize>>| -> usize {
+        let mut nb = BTreeSet::new();
+        if let Some(ks) = inc.get(&c) {
+            for &k in ks {
+                if let Some(f) = &slots[k] {
                     nb.extend(f.vars.iter().copied());
                 }
             }
-            let dg = nb.len();
-            if best.map_or(true, |(bd, _)| dg < bd) {
-                best = Some((dg, c));
-            }
         }
-        let (_, c) = best.unwrap();
+        nb.len()
+    };
+    let mut deg_of: std::collections::HashMap<usize, usize> = std::collections::HashMap::new();
+    let mut queue: BTreeSet<(usize, usize)> = BTreeSet::new();
+    for &c in &closed {
+        let dg = degree(c, &slots, &inc);
+        deg_of.insert(c, dg);
+        queue.insert((dg, c));
+    }
+    while let Some(&(dg, c)) = queue.iter().next() {
+        queue.remove(&(dg, c));
         closed.remove(&c);
-        let (with, without): (Vec<_>, Vec<_>) = factors.into_iter().partition(|f| f.vars.contains(&c));
-        factors = without;
+        let ks: Vec<usize> = inc.remove(&c).unwrap_or_default();
+        let with: Vec<Factor<S>> = ks.iter().filter_map(|&k| slots[k].take()).collect();
         if with.is_empty() {
             // free variable: contributes a factor 2
-            factors.push(Factor { vars: vec![], tab: vec![S::one().add(&S::one())] });
+            slots.push(Some(Factor { vars: vec![], tab: vec![S::one().add(&S::one())] }));
             continue;
         }
         let prod = multiply_all(with)?;
-        factors.push(sum_out(prod, c));
+        let newf = sum_out(prod, c);
+        let k_new = slots.len();
+        let touched: Vec<usize> = newf.vars.clone();
+        for &v in &touched {
+            let e = inc.entry(v).or_default();
+            e.retain(|k| slots[*k].is_some());
+            e.push(k_new);
+        }
+        slots.push(Some(newf));
+        for v in touched {
+            if closed.contains(&v) {
+                let old = deg_of[&v];
+                let nd = degree(v, &slots, &inc);
+                if nd != old {
+                    queue.remove(&(old, v));
+                    queue.insert((nd, v));
+                    deg_of.insert(v, nd);
+                }
+            }
+        }
     }
+    let factors: Vec<Factor<S>> = slots.into_iter().flatten().collect();
     let fin = multiply_all(factors)?;
     // expand to boundary indices
     let nb = bnds.len();
